@@ -23,6 +23,8 @@ open Cell2v.Driver Cell2v.SceneM
 structure DSt where
   m : Mgr := Mgr.init
   cfgs : List Nat := []
+  routable : List Nat := []                 -- scene services present in the cluster view
+  inflight : List (Nat × Nat × Nat) := []   -- unanswered allocation requests of SpawnScene: (sid, cfg, svc)
 
 def joinWith (sep : String) (xs : List String) : String := sep.intercalate xs
 
@@ -35,7 +37,8 @@ def dump (s : DSt) : String :=
     s!"{l.line}/{l.sid}" ++ (if l.cfg = c then "" else s!"!cfg{l.cfg}"))
   let sv := s.m.services.mergeSort (fun a b => a.1 ≤ b.1)
   let vs := sv.map fun e => s!"{e.1}:{if e.2.working then 1 else 0}:{e.2.n}:{e.2.failed}:{s.m.now - e.2.last}"
-  "S=" ++ joinWith "," (sc.map showScene) ++ " L=" ++ joinWith ";" ls ++ " V=" ++ joinWith "," vs
+  "S=" ++ joinWith "," (sc.map showScene) ++ " L=" ++ joinWith ";" ls ++ " V=" ++ joinWith "," vs ++
+    " P=" ++ joinWith "," (s.inflight.map fun e => s!"{e.1}:{e.2.1}:{e.2.2}")
 
 def isArgmin (svcs : List (Nat × Stat)) (k : Nat) : Bool :=
   svcs.any fun e => e.1 == k && e.2.working &&
@@ -58,6 +61,20 @@ def apply (s : DSt) (ws : List String) : Option (DSt × Option String) :=
   let ev (e : Ev) : Option (DSt × Option String) := some ({ s with m := s.m.step e }, some "ok")
   match ws.head? with
   | some "reset" => some ({}, some "ok")
+  | some "route" => do
+    let v ← kv ws "svcs"
+    some ({ s with routable := (v.splitOn ",").filterMap String.toNat? }, some "ok")
+  | some "spawn" => do let _ ← kvNat ws "cfg"; some (s, none)
+  | some "reply" => do
+    let sid ← kvNat ws "sid"
+    let res ← kv ws "res"
+    match s.inflight.find? (fun e => e.1 == sid) with
+    | none => some (s, some "unknown")
+    | some (_, cfg, svc) =>
+      let s1 := { s with inflight := s.inflight.filter (fun e => e.1 != sid) }
+      -- mgr_createscene.go: only a successful answer registers the scene
+      let evs := (spawnEvents { s.m with nextId := sid } cfg svc (some (if res == "ok" then .ok else .err))).drop 1
+      some ({ s1 with m := s1.m.run evs, cfgs := cfg :: s1.cfgs }, some "done")
   | some "refresh" => do ev (.refresh (← kvNat ws "svc") (← kvNat ws "n"))
   | some "adv" => do ev (.adv (← kvNat ws "ms"))
   | some "tick" => ev .tick
@@ -65,7 +82,7 @@ def apply (s : DSt) (ws : List String) : Option (DSt × Option String) :=
   | some "wlost" => do ev (.wlost (← kvNat ws "svc"))
   | some "create" => do
     let cfg ← kvNat ws "cfg"
-    some ({ m := s.m.step (.create (← kvNat ws "sid") cfg (← kvNat ws "svc")), cfgs := cfg :: s.cfgs }, some "ok")
+    some ({ s with m := s.m.step (.create (← kvNat ws "sid") cfg (← kvNat ws "svc")), cfgs := cfg :: s.cfgs }, some "ok")
   | some "end" => do ev (.endScene (← kvNat ws "sid"))
   | some "weight" => do some (s, some (cmpKey (← kvNat ws "a") (← kvNat ws "b")))
   | some "alloc" => do let _ ← kvNat ws "cfg"; some (s, none)
@@ -82,6 +99,15 @@ def stepModel (s : DSt) (line : String) : DSt × String :=
       match s.m.alloc satKey s.m.services with
       | (m', none) => let s' := { s with m := m' }; (s', "r=none " ++ dump s')
       | (m', some (k, sid)) => let s' := { s with m := m' }; (s', s!"r={sid}:{k} " ++ dump s')
+    else if ws.head? == some "spawn" then
+      let cfg := (kvNat ws "cfg").getD 0
+      match s.m.alloc satKey s.m.services with
+      | (_, none) => (s, "r=false " ++ dump s)
+      | (m', some (k, sid)) =>
+        if s.routable.contains k then
+          let s' := { s with m := m', inflight := s.inflight ++ [(sid, cfg, k)] }
+          (s', s!"r={sid}:{k}:sent " ++ dump s')
+        else let s' := { s with m := m' }; (s', "r=noroute " ++ dump s')
     else
       let cfg := (kvNat ws "cfg").getD 0
       (s, s!"r={showReq (s.m.world.reqScene cfg 0)} " ++ dump s)
@@ -112,6 +138,29 @@ def stepAccept (s : DSt) (line : String) : DSt × String :=
             -- follow the model's own choice
             let (sm, o) := stepModel s op
             (sm, "REJECT want (any least-busy working service) e.g. " ++ o)
+      else if ws.head? == some "spawn" then
+        let cfg := (kvNat ws "cfg").getD 0
+        let cands := (s.m.services.filter (fun e => isArgmin s.m.services e.1)).map (·.1)
+        let burnt := { s with m := s.m.step .alloc }
+        let s' : Option DSt :=
+          if r == "false" then (if cands.isEmpty then some s else none)
+          else if r == "noroute" then (if cands.any (fun k => !s.routable.contains k) then some burnt else none)
+          else match r.splitOn ":" with
+            | [a, b, "sent"] =>
+              match a.toNat?, b.toNat? with
+              | some sid, some k =>
+                if sid == s.m.nextId && cands.contains k && s.routable.contains k then
+                  some { burnt with inflight := s.inflight ++ [(sid, cfg, k)] }
+                else none
+              | _, _ => none
+            | _ => none
+        match s' with
+        | some s' =>
+          let want := s!"r={r} " ++ dump s'
+          if obs == want then (s', "ok") else (s', "REJECT want " ++ want)
+        | none =>
+          let (sm, o) := stepModel s op
+          (sm, "REJECT want (any least-busy working service; sent iff it is in the cluster view) e.g. " ++ o)
       else
         let cfg := (kvNat ws "cfg").getD 0
         let okR := (reqAnswers s.m.world cfg).any (fun a => showReq a == r)
@@ -146,6 +195,7 @@ structure PDump where
   scenes : List PScene
   lines : List PLine      -- in the implementation's slice order, per configuration
   stats : List PStat
+  pending : List PScene   -- unanswered allocation requests (sid, cfg, svc; `line` unused)
   deriving BEq
 
 def splitNonEmpty (s : String) (sep : String) : List String := (s.splitOn sep).filter (· ≠ "")
@@ -174,7 +224,12 @@ def parseDump (ws : List String) : Option PDump := do
     match e.splitOn ":" with
     | [k, w, n, _, _] => do some (⟨k, w == "1", ← n.toNat?⟩ : PStat)
     | _ => none)
-  some ⟨scenes, lines.flatten, stats⟩
+  let sP := ((((kv ws "P").getD "").splitOn "!").headD "")
+  let pending ← (splitNonEmpty sP ",").mapM (fun e =>
+    match e.splitOn ":" with
+    | [a, b, c] => do some (⟨← a.toNat?, ← b.toNat?, 0, c⟩ : PScene)
+    | _ => none)
+  some ⟨scenes, lines.flatten, stats, pending⟩
 
 def strictlyIncreasing : List Nat → Bool
   | a :: b :: rest => a < b && strictlyIncreasing (b :: rest)
@@ -207,6 +262,28 @@ def satW (n : Nat) : Nat := min n 5000
 
 def svcTok (ws : List String) : String := (kv ws "svc").getD "?"
 
+/-- a create-success for the fresh id `sid`: registered as asked, on the smallest free line, nothing else touched -/
+def checkCreate (p d : PDump) (sid cfg : Nat) (svc : String) : Option String :=
+  match d.scenes.find? (·.sid == sid) with
+  | none => some "C19/create-wrong-registration the created scene is not registered"
+  | some o =>
+    let want := mex ((p.lines.filter (·.cfg == cfg)).map (·.line))
+    if !(o.cfg == cfg && o.svc == svc) then some "C19/create-wrong-registration registered with another configuration or service"
+    else if !sameScenes (d.scenes.filter (·.sid != sid)) p.scenes then some "C19/create-wrong-registration other scenes changed"
+    else if o.line != want then some s!"C19/new-line-not-smallest-free got line {o.line}, smallest free was {want}"
+    else none
+
+/-- a placement decision: on a working service, none less busy, with an id that is not live -/
+def checkPlacement (d : PDump) (a k : String) : Option String :=
+  match d.stats.find? (·.svc == k) with
+  | none => some s!"C19/alloc-on-non-working placed on unknown service {k}"
+  | some st =>
+    if !st.working then some s!"C19/alloc-on-non-working placed on {k} which is not considered working"
+    else if d.stats.any (fun t => t.working && satW t.n < satW st.n) then
+      some s!"C19/alloc-not-least-busy placed on {k} although a less busy working service exists"
+    else if d.scenes.any (fun o => some o.sid == a.toNat?) then some s!"C19/alloc-live-scene-id {a}"
+    else none
+
 def checkOp (ws : List String) (r : String) (p d : PDump) : Option String :=
   let unchanged : Option String :=
     if sameScenes p.scenes d.scenes && p.lines == d.lines then none
@@ -214,17 +291,26 @@ def checkOp (ws : List String) (r : String) (p d : PDump) : Option String :=
   match ws.head? with
   | some "create" =>
     match kvNat ws "sid", kvNat ws "cfg" with
-    | some sid, some cfg =>
-      let svc := svcTok ws
-      match d.scenes.find? (·.sid == sid) with
-      | none => some "C19/create-wrong-registration the created scene is not registered"
-      | some o =>
-        let want := mex ((p.lines.filter (·.cfg == cfg)).map (·.line))
-        if !(o.cfg == cfg && o.svc == svc) then some "C19/create-wrong-registration registered with another configuration or service"
-        else if !sameScenes (d.scenes.filter (·.sid != sid)) p.scenes then some "C19/create-wrong-registration other scenes changed"
-        else if o.line != want then some s!"C19/new-line-not-smallest-free got line {o.line}, smallest free was {want}"
-        else none
+    | some sid, some cfg => checkCreate p d sid cfg (svcTok ws)
     | _, _ => none
+  | some "spawn" =>
+    -- SpawnScene only sends the request; nothing may be registered before (or without) a successful answer
+    if !(sameScenes p.scenes d.scenes && p.lines == d.lines) then
+      if r == "noroute" then some "C19/failed-create-registered the allocation request failed at once, yet the world changed"
+      else some "C19/world-changed-by-readonly-op a scene was registered before its creation was confirmed"
+    else match r.splitOn ":" with
+      | [a, k, "sent"] => checkPlacement d a k
+      | _ => none
+  | some "reply" =>
+    match kvNat ws "sid" with
+    | none => none
+    | some sid =>
+      match p.pending.find? (·.sid == sid) with
+      | none => unchanged
+      | some q =>
+        if (kv ws "res") == some "ok" then checkCreate p d sid q.cfg q.svc
+        else if sameScenes p.scenes d.scenes && p.lines == d.lines then none
+        else some "C19/failed-create-registered the scene service refused the allocation, yet the scene became live"
   | some "end" =>
     match kvNat ws "sid" with
     | some sid =>
@@ -263,17 +349,9 @@ def checkOp (ws : List String) (r : String) (p d : PDump) : Option String :=
     | none =>
       if r == "none" then none
       else match r.splitOn ":" with
-        | [a, k] =>
-          match d.stats.find? (·.svc == k) with
-          | none => some s!"C19/alloc-on-non-working placed on unknown service {k}"
-          | some st =>
-            if !st.working then some s!"C19/alloc-on-non-working placed on {k} which is not considered working"
-            else if d.stats.any (fun t => t.working && satW t.n < satW st.n) then
-              some s!"C19/alloc-not-least-busy placed on {k} although a less busy working service exists"
-            else if d.scenes.any (fun o => some o.sid == a.toNat?) then some s!"C19/alloc-live-scene-id {a}"
-            else none
+        | [a, k] => checkPlacement d a k
         | _ => some "C19/alloc-on-non-working unreadable answer"
-  | some "adv" | some "weight" => unchanged
+  | some "adv" | some "weight" | some "route" => unchanged
   | _ => none
 
 def stepSpec (s : SpecSt) (line : String) : SpecSt × String :=
@@ -291,7 +369,7 @@ def stepSpec (s : SpecSt) (line : String) : SpecSt × String :=
         if ws.head? == some "reset" then ({ prev := some d, tainted := false }, "ok")
         else
           -- a create-success for a live id is outside the property's hypothesis: stop judging this case
-          let dup := ws.head? == some "create" &&
+          let dup := (ws.head? == some "create" || ws.head? == some "reply") &&
             (match s.prev, kvNat ws "sid" with | some p, some sid => p.scenes.any (·.sid == sid) | _, _ => false)
           let tainted := s.tainted || dup
           let s' : SpecSt := { prev := some d, tainted := tainted }
